@@ -7,6 +7,7 @@ CONSTANTS
   Starts <- StartsNone
   RegOffer <- RegNone
   EnvGet <- EnvTrace
+  DirGet <- DirTrace
   Obs <- ObsTrace
 INVARIANTS OutputBounded NeverReadsPastEnd
 CHECK_DEADLOCK FALSE
